@@ -452,6 +452,22 @@ def silent(rep, tier):
         env_o.update({"a": A("ra"), "w": 2 + A("u") + A("tt"), "z0": A("ra") + 1 + A("u")})
         cr.add("O20.fires.sliced-beyond(D=%d)" % D, "O20.fires", D, ["a", "w"], "auto&& s = v.sliced(a, a + w); out[0] = s.size();", {(0, "must-assert"): P.const(0)},
                cases=[dict(env_o, __signs=sg2, __expect_assert=True)])
+    # flat element range of a 2-D view, row-major and column-major (transposed) with padding: every position 0 <= a < size can be reached by +=, by
+    # -= from the end, by [] and by the range's own [] without an assertion (the position a lies in the first row: z1 = a + 1 + t, so a < size whatever
+    # z0; in a column-major layout the leading dimension's element span is smaller than size: a test against it instead of num_elements() fires)
+    for lay, senv in (("row-major", {"s1": P.const(1), "s0": lambda z0, z1: z1 + A("p")}), ("column-major", {"s0": P.const(1), "s1": lambda z0, z1: z0 + A("p")})):
+        z0, z1 = 1 + A("y0"), A("a") + 1 + A("tt")
+        envf = {"z0": z0, "z1": z1}
+        for k_, v_ in senv.items():
+            envf[k_] = v_(z0, z1) if callable(v_) else v_
+        sgf = {"y0": NONNEG, "a": NONNEG, "tt": NONNEG, "p": NONNEG}
+        vf = vs.root(2, True).subst(envf)
+        at = vf.addr([P.const(0), A("a")]) * viewops.ELEM
+        cr.add("O20.silent.flat(D=2,%s)" % lay, "O20.silent", 2, ["a"],
+               "auto&& es = v.elements(); { auto it = es.begin(); it += a; out[0] = eaddr(*it, base); } { auto it = es.end(); it -= (es.size() - a); out[1] = eaddr(*it, base); } "
+               "out[2] = eaddr(es.begin()[a], base); out[3] = eaddr(es[a], base); { auto it = es.begin() + a; out[4] = it - es.begin(); }",
+               {(0, "begin+=a"): at, (1, "end-=(size-a)"): at, (2, "begin[a]"): at, (3, "elements()[a]"): at, (4, "position"): A("a")},
+               cases=[dict(envf, __signs=sgf)])
     cr.compile(nshards=4, defines=("-UNDEBUG", "-mllvm", "-inline-threshold=1000000"))
     check_expect(cr, rep)
     # element access of a 1-D view whose index base is not zero: the assertion is about the extension [f, f + size), not about [0, size)
@@ -478,6 +494,16 @@ def silent(rep, tier):
                     sgs["s%d" % k] = POS
                 crf.add("O20.silent.sliced(D=%d,%s,%s)" % (D2, bn, nm), "O20.silent", D2, ["a", "w"], "auto&& sl = v.sliced(a, a + w); out[0] = sl.size();", {(0, "size"): w_},
                         cases=[dict(env_s, __signs=sgs)])
+        # indexing a D = 2 view whose index base is not zero, through the mutable and the const overload: the assertion is about [f, f + size)
+        for cv, vexpr in (("mutable", "v"), ("const", "std::as_const(v)")):
+            sg2 = {"g": NONNEG, "r": NONNEG, "t": NONNEG, "t1": NONNEG, "s0": POS, "s1": POS}
+            env_i = {"f0": f0, "i0": f0 + A("r"), "z0": A("r") + 1 + A("t"), "z1": 1 + A("t1")}
+            crf.add("O20.silent.index(D=2,%s,%s)" % (cv, bn), "O20.silent", 2, ["i0"], "out[0] = %s[i0].size();" % vexpr, {(0, "size of the sub-view"): 1 + A("t1")},
+                    cases=[dict(env_i, __signs=sg2)])
+            for nm, i0 in (("one past the end", f0 + 1 + A("t")), ("beyond", f0 + 2 + A("t") + A("r")), ("before", f0 - 1 - A("r"))):
+                env_x = {"f0": f0, "i0": i0, "z0": 1 + A("t"), "z1": 1 + A("t1")}
+                crf.add("O20.fires.index-%s(D=2,%s,%s)" % (nm, cv, bn), "O20.fires", 2, ["i0"], "out[0] = %s[i0].size();" % vexpr, {(0, "must-assert"): P.const(0)},
+                        cases=[dict(env_x, __signs=sg2, __expect_assert=True)])
     crf.compile(nshards=2, defines=("-UNDEBUG", "-mllvm", "-inline-threshold=1000000"))
     check_expect(crf, rep)
 
